@@ -41,12 +41,12 @@ def is_lockword_race(kind, blk):
     return len(tops) >= 2 and "coap_lock_lock_func" in tops
 
 
-def one_run(exe, secs, workers, seed, variant):
+def one_run(exe, secs, workers, seed, variant, profile=0):
     env = dict(os.environ)
     env["TSAN_OPTIONS"] = TSAN_OPTS
     t0 = time.time()
     try:
-        p = subprocess.run([exe, str(secs), str(workers), str(seed)], stdout=subprocess.PIPE,
+        p = subprocess.run([exe, str(secs), str(workers), str(seed), str(profile)], stdout=subprocess.PIPE,
                            stderr=subprocess.PIPE, timeout=secs + 60, env=env)
         out, err, rc = p.stdout.decode("latin-1"), p.stderr.decode("latin-1"), p.returncode
     except subprocess.TimeoutExpired as e:
@@ -54,15 +54,18 @@ def one_run(exe, secs, workers, seed, variant):
         err = (e.stderr or b"").decode("latin-1")
         rc = -999
     return {"out": out, "err": err, "rc": rc, "secs": round(time.time() - t0, 1), "workers": workers,
-            "seed": seed, "variant": variant, "asked": secs}
+            "seed": seed, "variant": variant, "asked": secs, "profile": profile}
 
 
 def stress(run, plan=None, errpaths=True):
     if plan is None:
+        # (variant, seconds, workers[, profile]); profile 1 = mostly short-lived client sessions
+        # with traffic in flight when they are released (corpus/C13/sessions.stress, C13-F5)
         if run.tier == "quick":
-            plan = [("tsan", 3, 2), ("tsan", 5, 8)]
+            plan = [("tsan", 3, 3, 1), ("tsan", 3, 2, 0), ("tsan", 4, 8, 0)]
         else:
-            plan = [("tsan", 40, 2), ("tsan", 60, 4), ("tsan", 60, 8), ("base", 40, 8), ("base", 20, 3)]
+            plan = [("tsan", 30, 4, 1), ("tsan", 40, 2, 0), ("tsan", 60, 4, 0), ("tsan", 60, 8, 0),
+                    ("tsan", 30, 8, 1), ("base", 40, 8, 0), ("base", 20, 3, 1)]
     exes = {}
     for v in sorted(set(p[0] for p in plan) | ({"base"} if errpaths else set())):
         exes[v] = vlib.build_driver("h_lock_stress", ["h_lock_stress.c"], v)
@@ -89,21 +92,23 @@ def stress(run, plan=None, errpaths=True):
             run.violation("a failing API call leaves the global lock held: every other thread blocks for ever",
                           "command: %s errpaths   (variant %s; see corpus/C13/errpaths.stress)\n\n%s\n" %
                           (exes[v0], v0, out[-3000:]), tag="errpaths")
-    for k, (variant, secs, workers) in enumerate(plan):
+    for k, item in enumerate(plan):
+        variant, secs, workers = item[:3]
+        profile = item[3] if len(item) > 3 else 0
         seed = run.seed * 100 + k
-        r = one_run(exes[variant], secs, workers, seed, variant)
+        r = one_run(exes[variant], secs, workers, seed, variant, profile)
         line = [l for l in r["out"].split("\n") if l.startswith("stress ")]
         stats = dict(re.findall(r"(\w+)=(\d+)", line[-1])) if line else {}
         ok = bool(line) and line[-1].startswith("stress ok") and r["rc"] == 0
         reports = split_reports(r["err"])
         known = [b for kd, b in reports if is_lockword_race(kd, b)]
         other = [(kd, b) for kd, b in reports if not is_lockword_race(kd, b)]
-        key = "stress %s workers=%d seed=%d" % (variant, workers, seed)
+        key = "stress %s workers=%d seed=%d profile=%d" % (variant, workers, seed, profile)
         nontriv = ok and int(stats.get("reentries", 0)) > 0 and int(stats.get("responses", 0)) > 0 \
             and int(stats.get("events", 0)) > 0
         run.count(key, nontriv)
         run.hist("kind", "stress-" + variant)
-        summary.append({"variant": variant, "workers": workers, "seed": seed, "seconds": r["secs"],
+        summary.append({"variant": variant, "workers": workers, "seed": seed, "profile": profile, "seconds": r["secs"],
                         "ok": ok, "tsan_reports": len(reports), "tsan_known_lockword": len(known),
                         "tsan_other": len(other), **{k2: int(v) for k2, v in stats.items()}})
         if known:
@@ -118,16 +123,18 @@ def stress(run, plan=None, errpaths=True):
                 what = "a thread stopped making progress (hang)" if stuck else \
                     ("stress driver died rc=%d" % r["rc"])
                 run.violation("stress on the real API with %d worker threads + I/O thread: %s" % (workers, what),
-                              "command: %s %d %d %d   (variant %s)\n\n%s\n\nstdout:\n%s\n\nstderr (tail):\n%s\n"
-                              % (exes[variant], secs, workers, seed, variant, stuck, r["out"][-3000:],
+                              "command: %s %d %d %d %d   (variant %s)\n\n%s\n\nstdout:\n%s\n\nstderr (tail):\n%s\n"
+                              % (exes[variant], secs, workers, seed, profile, variant, stuck, r["out"][-3000:],
                                  r["err"][-6000:]), tag="hang%d" % nviol)
         for kd, b in other[:3]:
             nviol += 1
             if nviol <= 4:
                 tops = access_stacks(b)
-                run.violation("ThreadSanitizer: %s between %s (stress, %d workers)" % (kd, " / ".join(tops[:2]), workers),
-                              "command: TSAN_OPTIONS='%s' %s %d %d %d\n\n%s\n" %
-                              (TSAN_OPTS, exes[variant], secs, workers, seed, b[:12000]), tag="race%d" % nviol)
+                run.violation("ThreadSanitizer: %s between %s (stress, %d workers, profile %d)" %
+                              (kd, " / ".join(tops[:2]), workers, profile),
+                              "command: TSAN_OPTIONS='%s' %s %d %d %d %d   (variant %s)\n\n%s\n" %
+                              (TSAN_OPTS, exes[variant], secs, workers, seed, profile, variant, b[:12000]),
+                              tag="race%d" % nviol)
     run.cov["stress"] = summary
     run.sample({"stress": summary[-1]})
     return summary
